@@ -118,6 +118,15 @@ func VerifC07Tamper() {
 	vapi.Assume(delta != 0)
 	epos := []int{0, 11, 12, 30, 31}
 	cpos := []int{0, 15, 16, 31, 32, 47, 48, 63}
+	if vapi.Param("allpos", 0) == 1 { // thorough: every byte position of the key and of the sealed block
+		epos, cpos = nil, nil
+		for i := 0; i < 32; i++ {
+			epos = append(epos, i)
+		}
+		for i := 0; i < 64; i++ {
+			cpos = append(cpos, i)
+		}
+	}
 	k := vapi.Pick("pos", len(epos)+len(cpos)+1)
 	switch {
 	case k < len(epos):
